@@ -449,6 +449,10 @@ def main(argv=None):
             for k in known_active:
                 if k.get('bounded_id') and k['bounded_id'] == v.get('id'):
                     matched = k
+            if matched is None:
+                for k in known:
+                    if k.get('status') == 'fixed' and k.get('bounded_id') == v.get('id'):
+                        v = dict(v, note='listed as fixed in known_findings.json but observed again')
             if matched:
                 known_hits.append((matched, {'name': 'bounded:' + v.get('id', '?')}))
                 continue
